@@ -456,7 +456,10 @@ def random_case(rng, maxlen=60):
 def random_pair(rng):
     """two bars alive at the same time on two different outputs, one clock"""
     ca, cb = random_case(rng, 30), random_case(rng, 30)
-    cb["cfg"]["w"] = ca["cfg"]["w"]
+    if ca["cfg"]["mode"] == cb["cfg"]["mode"] == "section":
+        cb["cfg"]["w"] = ca["cfg"]["w"]  # one COLUMNS for both; only a section folds frames
+    else:
+        ca["cfg"]["w"] = cb["cfg"]["w"] = 200
     n = len(ca["ops"]) + len(cb["ops"])
     return {"pair": [ca, cb], "order": [rng.randint(0, 1) for _ in range(n)]}
 
@@ -599,6 +602,12 @@ def run(ctx):
             ctx.count()
             ctx.nontriv(("p", t, which))
     ctx.validate(SPEC, "ProgressBarTrace", "ProgressBarTrace.cfg", traces, cases=cases, name="recorded-sequences")
+
+    # extension beyond the listed property (A-clauses only): time texts, placeholder family, redraw frequency, messages
+    # with a line break
+    from harness.props import ext_bar
+
+    ext_bar.run_ext(ctx)
 
 
 def replay(ctx, path):
